@@ -114,6 +114,16 @@ def OpRefines (op : Opcode) : Prop :=
     (e.sigversion = .TAPSCRIPT → e.execdata.weightInit = true) →
     RelOut (execOpcode cx e op fExec pc) (Spec.execOp cfg op fExec pc e.opcodePos st)
 
+/-- the auxiliary equalities the signature opcodes rest on (proved in Refine/Encodings.lean and
+    Refine/FindAndDelete.lean; bundled so that the opcode proofs can be developed independently) -/
+structure SigLemmas : Prop where
+  fad : ∀ s b : Bytes, Model.findAndDelete s b = Spec.findAndDelete s b
+  pushData : ∀ b : Bytes, pushData b = Spec.pushOf b
+  sigEnc : ∀ (cx : Ctx) (e : SEE) (cfg : Spec.Cfg), CfgRel cx e cfg → ∀ sig : Bytes,
+    RelUnit (checkSignatureEncoding cx sig e.flags) (Spec.sigEncodingOk cfg sig)
+  keyEnc : ∀ (cx : Ctx) (e : SEE) (cfg : Spec.Cfg), CfgRel cx e cfg → ∀ key : Bytes,
+    RelUnit (checkPubKeyEncoding key e.flags e.sigversion) (Spec.keyEncodingOk cfg key)
+
 -- numbers -------------------------------------------------------------------------------------
 
 theorem minimalOk_eq_minimalNum (b : Bytes) : minimalOk b = Spec.minimalNum b := by
